@@ -35,6 +35,13 @@ pub fn read_header(rom_file: &mut File) -> Result<Header, String> {
     rom_file.read_exact(buffer).map_err(|_| String::from("Unable to read ROM header"))?;
   }
 
+  // The ROM is mapped with the size its header declares: a file that is
+  // shorter than that would fault on the first access past its end.
+  let file_length = rom_file.metadata().map_err(|_| String::from("Unable to read ROM file"))?.len();
+  if file_length < header.get_rom_size_bytes() as u64 {
+    return Err(String::from("File is shorter than the ROM size declared in its header"));
+  }
+
   Ok(header)
 }
 
